@@ -7,6 +7,8 @@
 //	C20.parse    real Plaintext/Cef LogParser.ParseEntry                 ↔ parseLine
 //	C20.verify   real ReadLogEntries + IntegrityCheckVerifier on a file  ↔ scanLines + parseLine + verify
 //	C20.verifyp  same for JSON: the model receives the lines as parsed by the real JSONLogParser
+//	C20.lines    real ReadLogEntries on a file (which lines reach the verifier)   ↔ scanLines (processLogFile's read loop)
+//	C20.verifyfiles  real ReadLogEntries over several files + one verifier run    ↔ verifyFiles
 //
 // JSON (model AuditLog/Json.lean: encoding/json's encoder and decoder for decoded values, convertMapToBytes, hook, parser):
 //
@@ -54,14 +56,25 @@ func newHook(format string, key []byte) postFormatter {
 }
 
 func verdict(format string, key, file []byte) string {
+	return verdictFiles(format, key, [][]byte{file})
+}
+
+// verdictFiles: the real ReadLogEntries over the given files (in order) into one real IntegrityCheckVerifier
+// run – what acra-log-verifier does with a list of rotated log files. The failing line is reported as an index
+// into the lines of ALL files (the LineNumber of the reader restarts per file).
+func verdictFiles(format string, key []byte, files [][]byte) string {
 	dir, err := os.MkdirTemp("", "vh-c20-")
 	if err != nil {
 		panic("harness: " + err.Error())
 	}
 	defer os.RemoveAll(dir)
-	path := filepath.Join(dir, "audit.log")
-	if err := os.WriteFile(path, file, 0o600); err != nil {
-		panic("harness: " + err.Error())
+	var paths []string
+	for i, file := range files {
+		path := filepath.Join(dir, fmt.Sprintf("audit.log.%d", i))
+		if err := os.WriteFile(path, file, 0o600); err != nil {
+			panic("harness: " + err.Error())
+		}
+		paths = append(paths, path)
 	}
 	parser, err := logging.NewLogParser(format)
 	if err != nil {
@@ -71,7 +84,7 @@ func verdict(format string, key, file []byte) string {
 	if err != nil {
 		panic("harness: " + err.Error())
 	}
-	src := logging.ReadLogEntries([]string{path}, false, false)
+	src := logging.ReadLogEntries(paths, false, false)
 	entry, err := v.VerifyIntegrityCheck(src)
 	for range src.Entries { // drain so that the reader goroutine ends
 	}
@@ -88,7 +101,14 @@ func verdict(format string, key, file []byte) string {
 	case logging.ErrIntegrityNotMatch:
 		kind = "mismatch"
 	}
-	return fmt.Sprintf("fail %d %s", entry.LineNumber, kind)
+	line := entry.LineNumber
+	for i := range files {
+		if entry.FileInfo != nil && entry.FileInfo.Name() == fmt.Sprintf("audit.log.%d", i) {
+			break
+		}
+		line += len(fileLines(files[i]))
+	}
+	return fmt.Sprintf("fail %d %s", line, kind)
 }
 
 func parseReal(format string, line []byte) string {
@@ -146,6 +166,24 @@ func init() {
 	})
 	core.Register("C20.parse", func(a []string) string { return parseReal(a[0], core.UnHex(a[1])) })
 	core.Register("C20.verify", func(a []string) string { return verdict(a[0], core.UnHex(a[1]), core.UnHex(a[2])) })
+	core.Register("C20.verifyfiles", func(a []string) string {
+		var files [][]byte
+		for _, f := range a[2:] {
+			files = append(files, core.UnHex(f))
+		}
+		return verdictFiles(a[0], core.UnHex(a[1]), files)
+	})
+	core.Register("C20.lines", func(a []string) string {
+		ls := fileLines(core.UnHex(a[0]))
+		if len(ls) == 0 {
+			return "none"
+		}
+		parts := make([]string, len(ls))
+		for i, l := range ls {
+			parts[i] = core.Hex(l)
+		}
+		return strings.Join(parts, ",")
+	})
 	core.Register("C20.jenc", func(a []string) string {
 		b, err := json.Marshal(string(core.UnHex(a[0])))
 		if err != nil {
